@@ -8,5 +8,6 @@ def run(ctx, rep):
     isolation.rule_fresh_vm_pointer_cleared(ctx, rep, "C12-R3")
     isolation.rule_nested_globals(ctx, rep, "C12-R4")
     isolation.rule_no_stale_deadline(ctx, rep, "C12-R5")
+    isolation.rule_no_vm_bound_values_on_objects(ctx, rep, "C12-R7")
     pairing.rule_contextmanager_cleanup(ctx, rep, "C12-R6", where=lambda f: f.module.name in ("context", "vm", "values"), what=" of the runtime")
     rep.undecided += ["agreement with the abstract per-context dictionary model over histories (runtime property)"]
